@@ -470,6 +470,14 @@ def prox_typestate(ctx, names, po, admm, icp, cp):
                     )
                     if full:
                         loops.append(s)
+                # for i, factor in enumerate(factors): factors[i] = proximal_operator(factor, ...): every element, in place
+                elif (
+                    ct.kind == "repo" and ct.funcs[0] is po and a.value.args
+                    and isinstance(s.target, (ast.Tuple, ast.List)) and len(s.target.elts) == 2 and all(isinstance(x, ast.Name) for x in s.target.elts)
+                    and isinstance(s.iter, ast.Call) and is_name(s.iter.func, "enumerate") and len(s.iter.args) == 1 and is_name(s.iter.args[0], "factors")
+                    and is_name(a.targets[0].slice, s.target.elts[0].id) and is_name(a.value.args[0], s.target.elts[1].id)
+                ):
+                    loops.append(s)
     for initv in ("svd", "random"):
         g = build_cfg(icp.node, icp.qname, opaque=lambda st: any(st is l for l in loops))
         ex = Explorer(g, _InitRule(icp, repo, loops), {"init": initv}).run()
@@ -611,40 +619,41 @@ def validate_first(ctx, vc, cp, icp):
 
 
 def index_agree(ctx, vc):
-    """Inside validate_constraints' registration helper the per-mode tables and the user's
-    specification are indexed by the same key within one loop body."""
+    """Where validate_constraints registers a constraint, the per-mode tables and the user's specification
+    are indexed by the same key within one loop body (read on the inlined function: the registration may be
+    a nested helper or written out)."""
+    from ..inline import with_inlined
+
     res = ctx.res
-    helpers = list(vc.nested.values())
-    if not helpers:
-        raise AnalysisError("validate_constraints: the registration helper (nested function) vanished")
+    f = with_inlined(ctx.repo, vc)
+    TABLES = ("constraints", "parameters")
     n = 0
-    for h in helpers:
-        spec = h.pos_params[0] if h.pos_params else None
-        for loop in own_scope_nodes(h.node):
-            if not isinstance(loop, ast.For):
-                continue
-            idx = {}
-            for x in ast.walk(loop):
-                if isinstance(x, ast.Subscript) and isinstance(x.value, ast.Name):
-                    b = x.value.id
-                    if b in ("constraints", "parameters") and isinstance(x.ctx, ast.Store):
-                        idx.setdefault(b, set()).add(src(x.slice))
-                    elif b == spec and isinstance(x.ctx, ast.Load):
-                        # an index used to *read the user's value* for a mode
-                        par_is_store_value = True
+    loops = [lp for lp in own_scope_nodes(f.node) if isinstance(lp, ast.For)]
+    for loop in loops:
+        stores = [st for st in ast.walk(loop) if isinstance(st, ast.Assign) and len(st.targets) == 1 and isinstance(st.targets[0], ast.Subscript) and isinstance(st.targets[0].value, ast.Name) and st.targets[0].value.id in TABLES]
+        if not stores:
+            continue
+        # innermost loops only
+        if any(isinstance(y, ast.For) and y is not loop and any(s_ in list(ast.walk(y)) for s_ in stores) for y in ast.walk(loop)):
+            continue
+        idx = {}
+        for st in stores:
+            idx.setdefault(st.targets[0].value.id, set()).add(src(st.targets[0].slice))
+            if st.targets[0].value.id == "parameters":
+                # an index used to *read the user's value* for a mode
+                for x in ast.walk(st.value):
+                    if isinstance(x, ast.Subscript) and isinstance(x.value, ast.Name) and x.value.id not in TABLES and isinstance(x.ctx, ast.Load):
                         idx.setdefault("spec", set()).add(src(x.slice))
-            if not idx.get("constraints") and not idx.get("parameters"):
-                continue
-            n += 1
-            # reads like modes[i] (building the key) are not value reads: drop indices that
-            # only occur as sub-expressions of another index
-            alls = set().union(*idx.values())
-            keys = {k: {i for i in v if not any(i != j and i in j for j in alls)} or v for k, v in idx.items()}
-            distinct = set().union(*[v for k, v in keys.items()])
-            ok = len(distinct) == 1
-            res.instance("INDEX-AGREE", f"{h.qname}: loop@{src(loop.target)} in {src(loop.iter)[:40]}", sample={"indices": {k: sorted(v) for k, v in keys.items()}, "ok": ok})
-            if not ok:
-                ctx.finding("INDEX-AGREE", h, loop, f"inside one loop the per-mode tables and the specification are indexed differently ({ {k: sorted(v) for k, v in keys.items()} }): a constraint or its parameter is registered for another mode than the one it was requested for", construct=f"for {src(loop.target)} in {src(loop.iter)[:40]}: indices {sorted(distinct)}")
+        n += 1
+        # reads like modes[i] (building the key) are not value reads: drop indices that
+        # only occur as sub-expressions of another index
+        alls = set().union(*idx.values())
+        keys = {k: {i for i in v if not any(i != j and i in j for j in alls)} or v for k, v in idx.items()}
+        distinct = set().union(*[v for k, v in keys.items()])
+        ok = len(distinct) == 1
+        res.instance("INDEX-AGREE", f"{vc.qname}: loop@{src(loop.target)} in {src(loop.iter)[:40]}", sample={"indices": {k: sorted(v) for k, v in keys.items()}, "ok": ok})
+        if not ok:
+            ctx.finding("INDEX-AGREE", f, loop, f"inside one loop the per-mode tables and the specification are indexed differently ({ {k: sorted(v) for k, v in keys.items()} }): a constraint or its parameter is registered for another mode than the one it was requested for", construct=f"for {src(loop.target)} in {src(loop.iter)[:40]}: indices {sorted(distinct)}")
     if n == 0:
         raise AnalysisError("INDEX-AGREE: no registration loop found in validate_constraints")
 
